@@ -430,7 +430,7 @@ theorem c10_failure_before_client_head_is_502 (cfg : Cfg) (st : St) (e : End)
 theorem c10_truncated_before_client_head_is_502 (cfg : Cfg) (st : St)
     (hv : cfg.ver ≤ 1) (hbe : cfg.be ≠ .fcgi) (hc : st.cstate = .handle) (ho : st.open_ = true)
     (hs : st.started = true) (hh : st.handler = true) (hf : st.finished = false)
-    (hsent : st.hdrSent = false) (ht : bodyTruncated st = true) :
+    (hsent : st.hdrSent = false) (ht : bodyTruncated cfg st = true) :
     (onEnd cfg st .eof).status = 502 ∧ (onEnd cfg st .eof).cstate = .done ∧
     (onEnd cfg st .eof).keepAlive = st.keepAlive ∧
     ∃ fields, (onEnd cfg st .eof).evs = pushW st.evs
@@ -463,7 +463,7 @@ theorem c10_truncated_before_client_head_is_502 (cfg : Cfg) (st : St)
 theorem c10_truncated_after_head_closes (cfg : Cfg) (st : St)
     (hv : cfg.ver ≤ 1) (hbe : cfg.be ≠ .fcgi) (hc : st.cstate = .write) (ho : st.open_ = true)
     (hh : st.handler = true) (hf : st.finished = false)
-    (hsent : st.hdrSent = true) (ht : bodyTruncated st = true)
+    (hsent : st.hdrSent = true) (ht : bodyTruncated cfg st = true)
     (hpt : st.sendChunked = true → st.dc.isSome = true) :
     (onEnd cfg st .eof).keepAlive = false ∧ (onEnd cfg st .eof).cstate = .done ∧
     (onEnd cfg st .eof).evs = pushW st.evs st.wq := by
@@ -525,7 +525,7 @@ theorem c10_h2_failure_resets_stream (cfg : Cfg) (st : St) (e : End)
 theorem c10_h2_truncated_resets_stream (cfg : Cfg) (st : St)
     (hv : cfg.ver ≥ 2) (hbe : cfg.be ≠ .fcgi) (hc : st.cstate = .write) (ho : st.open_ = true)
     (hh : st.handler = true) (hf : st.finished = false)
-    (hsent : st.hdrSent = true) (ht : bodyTruncated st = true) :
+    (hsent : st.hdrSent = true) (ht : bodyTruncated cfg st = true) :
     (onEnd cfg st .eof).cstate = .done ∧ (onEnd cfg st .eof).evs = st.evs ++ [.rst] := by
   have hv1 : ¬ (cfg.ver = 1) := by omega
   rw [onEnd_active cfg st .eof (Or.inr hc) ho (by simp) (by simp [lostHandler, hc])]
@@ -629,7 +629,7 @@ inductive Broken (cfg : Cfg) (st : St) : End → Prop
   /-- connection reset / socket error / FastCGI end of stream without END_REQUEST, body not finished -/
   | failed (e : End) : st.started = true → FailEnd cfg st e → Broken cfg st e
   /-- backend EOF short of the announced Content-Length or inside a chunked body -/
-  | truncated : st.started = true → cfg.be ≠ .fcgi → bodyTruncated st = true →
+  | truncated : st.started = true → cfg.be ≠ .fcgi → bodyTruncated cfg st = true →
       (st.sendChunked = true → st.dc.isSome = true) → Broken cfg st .eof
 
 /-- `c10_broken_never_complete` of DESIGN §6 (HTTP/1.x): a backend response that is cut off — no
@@ -712,13 +712,13 @@ example : let st := onData { be := .proxy, ver := 1, stream := 1 } {}
                       (ofString "HTTP/1.1 200 OK\r\nContent-Length: 5\r\n\r\nhel")
     st.cstate = .write ∧ st.open_ = true ∧ st.started = true ∧ st.finished = false ∧ st.handler = true ∧
     st.scratch > 0 ∧ st.sendChunked = false ∧ st.decodeChunked = false ∧ st.hdrSent = true ∧
-    bodyTruncated st = true := by decide
+    bodyTruncated cfg st = true := by decide
 /-- ... of a chunked body passed through (decoder not done), and of an EOF-delimited body -/
 example : let st := onData { be := .proxy, ver := 1, stream := 1 } {}
                       (ofString "HTTP/1.1 200 OK\r\nTransfer-Encoding: chunked\r\n\r\n5\r\nhel")
     st.cstate = .write ∧ st.open_ = true ∧ st.started = true ∧ st.finished = false ∧ st.handler = true ∧
     st.sendChunked = true ∧ st.dc.isSome = true ∧ st.dcDone = 0 ∧ st.hdrSent = true ∧
-    bodyTruncated st = true := by decide
+    bodyTruncated cfg st = true := by decide
 example : let st := onData { be := .scgi, ver := 1, stream := 1 } {} (ofString "Status: 200\r\n\r\nhel")
     st.cstate = .write ∧ st.open_ = true ∧ st.started = true ∧ st.finished = false ∧ st.handler = true ∧
     st.sendChunked = true ∧ st.dc = none ∧ st.scratch < 0 := by decide
@@ -727,7 +727,7 @@ example : let st := onData { be := .scgi, ver := 1, stream := 1 } {} (ofString "
 example : let st := onData { be := .proxy, ver := 1, stream := 0 } {}
                       (ofString "HTTP/1.1 200 OK\r\nTransfer-Encoding: chunked\r\n\r\n5\r\nhello\r\n")
     st.cstate = .handle ∧ st.open_ = true ∧ st.started = true ∧ st.finished = false ∧ st.handler = true ∧
-    st.hdrSent = false ∧ bodyTruncated st = true ∧ (st.sendChunked = true → st.dc.isSome = true) := by decide
+    st.hdrSent = false ∧ bodyTruncated cfg st = true ∧ (st.sendChunked = true → st.dc.isSome = true) := by decide
 example : Broken { be := .proxy, ver := 1, stream := 0 }
     (onData { be := .proxy, ver := 1, stream := 0 } {}
       (ofString "HTTP/1.1 200 OK\r\nTransfer-Encoding: chunked\r\n\r\n5\r\nhello\r\n")) .eof :=
